@@ -299,25 +299,41 @@ def step_anchors(ctx, mod):
 
 
 def build_harness(ctx, features=(), target="target", profile="release"):
+    """Build the harness against REPO's working tree. For REPO == /repo the crate in harness/ is
+    used as it is (path dependency "/repo"). For another checkout (VERIF_REPO, mutation
+    self-tests) a sibling crate harness-alt/<hash>/ is generated whose manifest names that
+    checkout by absolute path and whose package is renamed: cargo keys its fingerprints by
+    package id (which contains the path), so the two builds can never be confused, while the
+    dependencies are shared through the common target directory."""
     t = time.time()
-    link = os.path.join(HARNESS, "norad-src")       # the path dependency of the harness crate
-    if not os.path.islink(link) or os.readlink(link) != REPO:
-        if os.path.lexists(link):
-            os.remove(link)
-        os.symlink(REPO, link)
     env = {"CARGO_TARGET_DIR": os.path.join(HARNESS, target)}
+    binname = "norad-verif-harness"
+    cwd = HARNESS
+    if os.path.realpath(REPO) != "/repo":
+        h = hashlib.sha256(os.path.realpath(REPO).encode()).hexdigest()[:10]
+        cwd = os.path.join(VERIF, "harness-alt", h)
+        os.makedirs(os.path.join(cwd, ".cargo"), exist_ok=True)
+        man = open(os.path.join(HARNESS, "Cargo.toml")).read()
+        man = man.replace('path = "/repo"', 'path = "%s"' % os.path.realpath(REPO))
+        man = man.replace('name = "norad-verif-harness"', 'name = "norad-verif-harness-alt-%s"' % h)
+        open(os.path.join(cwd, "Cargo.toml"), "w").write(man)
+        shutil.copy(os.path.join(HARNESS, "Cargo.lock"), os.path.join(cwd, "Cargo.lock"))
+        shutil.copy(os.path.join(HARNESS, ".cargo", "config.toml"), os.path.join(cwd, ".cargo", "config.toml"))
+        if not os.path.lexists(os.path.join(cwd, "src")):
+            os.symlink(os.path.join(HARNESS, "src"), os.path.join(cwd, "src"))
+        binname = "norad-verif-harness-alt-%s" % h
     cmd = ["cargo", "build", "--offline", "--quiet"]
     if profile == "release":
         cmd.append("--release")
     if features:
         cmd += ["--features", ",".join(features)]
-    rc, out = sh(cmd, cwd=HARNESS, timeout=1800, env=env)
+    rc, out = sh(cmd, cwd=cwd, timeout=1800, env=env)
     ctx.timings["harness_build_" + target] = round(time.time() - t, 1)
     if rc != 0:
-        # the tree under /repo no longer compiles (or the API the harness uses moved)
+        # the tree under REPO no longer compiles (or the API the harness uses moved)
         ctx.note("harness build failed:\n" + out[-3000:])
         return None
-    return os.path.join(HARNESS, target, profile, "norad-verif-harness")
+    return os.path.join(HARNESS, target, profile, binname)
 
 
 # ------------------------------------------------------------------ Coq output parsing
